@@ -234,7 +234,12 @@ def sublexThenFilter (ops : List Op) (obs : List String) : Bool :=
         | .setFilter _ | .withFilter _ => pending || go depth pending ops os
         | _ =>
           let out := (o.splitOn "@").headD ""
-          let deliveredTok := isAdvance op && out != "none" && out != "0"
+          -- a token was consumed: `next` / `next_if` returned one, or `advance_to` answered true
+          -- (`advance_up_to` stops in front of its token and may consume nothing)
+          let consuming := match op with
+            | .next | .nextIf _ | .advanceTo _ => true
+            | _ => false
+          let deliveredTok := consuming && out != "none" && out != "0"
           go depth (pending && !deliveredTok) ops os
   go 0 false ops obs
 
